@@ -495,7 +495,8 @@ Proof.
   unfold parse_osc. destruct (scan_digits inp 0) as [[[num b] rest]|]; [|discriminate].
   destruct (b =? 59).
   - destruct (scan_osc_payload rest []) as [[p r']|]; [|discriminate]. intros H; inversion H; reflexivity.
-  - destruct (_ || _); intros H; inversion H; reflexivity.
+  - destruct (_ || _); [intros H; inversion H; reflexivity|].
+    destruct (scan_str rest b); [|discriminate]. intros H; inversion H; reflexivity.
 Qed.
 
 Lemma parse_esc_not_glyph inp k r : parse_esc inp = PTok k r -> is_glyph_tok k = false.
